@@ -86,8 +86,10 @@ def _worker_run(item):
     except CaseTimeout as e:
         # where was the case when the alarm fired?  Inside the code under test: a hang of the real code,
         # reported as a rejected record.  Inside the harness: machinery failure.
-        tb = [f for f in traceback.extract_tb(e.__traceback__) if not f.filename.endswith('framework.py')]
         root = os.path.join(os.path.realpath(REPO), '')
+        mine = os.path.join(os.path.realpath(VERIF), '')
+        tb = [f for f in traceback.extract_tb(e.__traceback__) if not f.filename.endswith('framework.py')
+              and os.path.realpath(f.filename).startswith((root, mine))]
         if tb and os.path.realpath(tb[-1].filename).startswith(root):
             return idx, [dict(shape_ok=False, crashed=True, crash='no result after %ss (hang)' % limit,
                               where='%s:%d' % (os.path.relpath(tb[-1].filename, root), tb[-1].lineno),
@@ -100,9 +102,14 @@ def _worker_run(item):
         # violation.  Exceptions raised by the harness itself stay machinery failures.
         tb = traceback.extract_tb(e.__traceback__)
         root = os.path.join(os.path.realpath(REPO), '')
-        if tb and os.path.realpath(tb[-1].filename).startswith(root) and not isinstance(e, (KeyboardInterrupt, MemoryError)):
+        mine = os.path.join(os.path.realpath(VERIF), '')
+        # the innermost frame that is neither standard library nor an installed package decides: the exception
+        # may surface inside enum.py or json/decoder.py and still be the repository's doing
+        own = [f for f in tb if os.path.realpath(f.filename).startswith((root, mine))]
+        if own and os.path.realpath(own[-1].filename).startswith(root) \
+                and not isinstance(e, (KeyboardInterrupt, MemoryError)):
             return idx, [dict(shape_ok=False, crashed=True, crash='%s: %s' % (type(e).__name__, str(e)[:200]),
-                              where='%s:%d' % (os.path.relpath(tb[-1].filename, root), tb[-1].lineno),
+                              where='%s:%d' % (os.path.relpath(own[-1].filename, root), own[-1].lineno),
                               case=json.dumps(case)[:400])], None
         return idx, None, traceback.format_exc()
     finally:
